@@ -42,15 +42,15 @@ Lemma mixer_reset_is_init : forall sf la lb cs,
   (mx_init (wrap_ints la) (wrap_ints lb), ROk).
 Proof.
   intros sf la lb cs.
-  destruct (run_sim sf true true cs _ _ (sim_init sf true true la lb)) as [_ H].
+  pose proof (tail_ok_wrap_items la) as Ta. pose proof (tail_ok_wrap_items lb) as Tb.
+  destruct (run_sim sf _ _ true true cs _ _ Ta Tb (sim_init sf _ _ true true Ta Tb)) as [_ H].
   { intros _. split; reflexivity. }
   change (src_of (wrap_items la) true) with (wrap_ints la) in H.
   change (src_of (wrap_items lb) true) with (wrap_ints lb) in H.
-  destruct (spec_run_inputs sf cs (spec_init la lb)) as [E1 E2]. cbn [spec_init sp_l1 sp_l2] in E1, E2.
-  revert H E1 E2.
+  revert H.
   generalize (snd (mx_run sf (mx_init (wrap_ints la) (wrap_ints lb)) cs)).
-  generalize (snd (spec_run sf (spec_init la lb) cs)).
-  intros s m H E1 E2. break_sim. cbn in E1, E2. subst.
+  generalize (snd (spec_run sf (spec_init (live_items (wrap_items la)) (live_items (wrap_items lb))) cs)).
+  intros s m H. break_sim. subst.
   unfold mx_reset, desc_reset, src_reset, mx_init, wrap_ints, src_of. cbn. reflexivity.
 Qed.
 
